@@ -100,6 +100,8 @@ func c0102(rep *ev.Reporter, tier string, judge func(c *Case, tr *hx.Trace, w *r
 			emit0(c)
 		}
 		depMatrix(nShapes, maxCycle, emit)
+		// aliased fact states (no further dimensions: the signatures stay one per location and same / other path)
+		depAliasMatrix(maxCycle, func(c Case) { c.NoSplit = true; emit0(c) })
 		general2(tier, maxCycle, emit)
 		sharedRoles(8, emit)
 		forgetCall(8, emit)
